@@ -240,8 +240,8 @@ def harnesses(tier):
                       bounds={'initial writes': '3 (increasing symbolic timestamps, 2-byte records)', 'operations after them': 3 if q else 4, 'op kinds': 'write(ts) read read-all reopen' if q else 'write(ts) read read-all reopen external-delete',
                               'file_size, total_size': 'unbounded Int >= 1'}, functions=fn, stubs=stubs, assumptions=assume, real_replay=real_replay, budget_s=400 if q else 2400))
     if not q:
-        hs.append(Harness('c13.same_object.5', scenario_factory(5, ['txt'], ops=['write_ts', 'read', 'read_all', 'extdel', 'reopen']),
-                          bounds={'operations': 5, 'op kinds': 'write(ts) read read-all external-delete reopen', 'mode': 'txt', 'file_size, total_size, timestamps': 'unbounded Int'},
+        hs.append(Harness('c13.same_object.5', scenario_factory(5, ['txt'], ops=['write_ts', 'read', 'read_all', 'extdel', 'reopen', 'seek_tell']),
+                          bounds={'operations': 5, 'op kinds': 'write(ts) read read-all external-delete reopen seek(tell())', 'mode': 'txt', 'file_size, total_size, timestamps': 'unbounded Int'},
                           functions=fn, stubs=stubs, assumptions=assume, real_replay=real_replay, budget_s=2400))
     return hs
 
